@@ -254,6 +254,7 @@ def bounded(ctx):
 
 def units(ctx):
     return [core.Unit(f"{PROP}.merge_kernel_intervals", lambda: mc.merge_vcs(PROP), [UT + ".merge_kernel_intervals"]),
+            core.Unit(f"{PROP}.merge_kernel_intervals.stale_helper_columns", lambda: mc.merge_vcs(PROP, stale=True), [UT + ".merge_kernel_intervals"]),
             core.Unit(f"{PROP}.get_idle_time_for_kernels", idle_for_kernels_vcs, [BA + ".BreakdownAnalysis._get_idle_time_for_kernels"]),
             core.Unit(f"{PROP}.idle_time_per_rank", per_rank_vcs, [BA + ".BreakdownAnalysis.get_temporal_breakdown.idle_time_per_rank"]),
             core.Unit(f"{PROP}.percentage_tail", pctg_vcs, [BA + ".BreakdownAnalysis.get_temporal_breakdown"])]
